@@ -266,8 +266,32 @@ func unsat(ges []Lin, eqs []Lin) bool {
 }
 
 func unsatInner(ges []Lin, eqs []Lin) (res bool) {
-	ges = append([]Lin(nil), ges...)
 	eqs = append([]Lin(nil), eqs...)
+	// l >= 0 together with -l >= 0 is the equality l == 0: substituting equalities first keeps
+	// divisibility information (i == 2k) that pairwise elimination over the rationals loses
+	{
+		byKey := map[string]int{}
+		for i, l := range ges {
+			byKey[l.Key()] = i
+		}
+		used := make([]bool, len(ges))
+		var rest []Lin
+		for i, l := range ges {
+			if used[i] || len(l.Ts) == 0 {
+				continue
+			}
+			if j, ok := byKey[l.Scale(-1).Key()]; ok && j != i && !used[j] {
+				used[i], used[j] = true, true
+				eqs = append(eqs, l)
+			}
+		}
+		for i, l := range ges {
+			if !used[i] {
+				rest = append(rest, l)
+			}
+		}
+		ges = rest
+	}
 	// Gaussian elimination of equalities.
 	for len(eqs) > 0 {
 		e := eqs[len(eqs)-1]
